@@ -5,7 +5,7 @@
    normalizeApp / normalizeEndpoint / normalizeEvent drop or add a normalize* call. *)
 From Coq Require Import String List Bool NArith.
 Import ListNotations.
-Require Import Verif.Relmod.Model Verif.Relmod.PayloadProps Verif.Relmod.StmtProps Verif.Relmod.Run Verif.Relmod.CensusProps Verif.Relmod.Rebuild Verif.Gen.RelmodShape.
+Require Import Verif.Relmod.Model Verif.Relmod.PayloadProps Verif.Relmod.StmtProps Verif.Relmod.Run Verif.Relmod.CensusProps Verif.Relmod.Rebuild Verif.Relmod.KindProps Verif.Relmod.SetProps Verif.Gen.RelmodShape.
 Local Open Scope string_scope.
 Local Open Scope list_scope.
 
@@ -47,6 +47,9 @@ Proof. reflexivity. Qed.
 Lemma payload_grammar_shape :
   g_prim_mode payload_grammar = PrimWord /\ g_mods payload_grammar = ModsSorted /\ g_dup payload_grammar = DupRefused.
 Proof. repeat split; reflexivity. Qed.
+(* parseFieldType answers nil for a nil type (the return type of a view that declares none) *)
+Lemma nil_type_is_guarded : g_nil payload_grammar = NilGuarded.
+Proof. reflexivity. Qed.
 Lemma payload_primitives_wordy : Forall wordy (g_prims payload_grammar).
 Proof. repeat constructor; try discriminate. Qed.
 (* the rules Payload.v transliterates, the post-processing function, the functions around them: as pinned *)
@@ -56,7 +59,7 @@ Definition pinned_fn_text : list (string * string) := [("unpackType", "func unpa
   ("attrToValue", "func attrToValue(a *sysl.Attribute) rel.Value { switch a.Attribute.(type) { case *sysl.Attribute_S: return rel.NewString([]rune(a.GetS())) case *sysl.Attribute_I: return rel.NewNumber(float64(a.GetI())) case *sysl.Attribute_N: return rel.NewNumber(a.GetN()) case *sysl.Attribute_A: as := a.GetA().Elt vs := make([]rel.Value, 0, len(as)) for _, elt := range as { vs = append(vs, attrToValue(elt)) } return rel.NewArray(vs...) default: panic(fmt.Errorf(fmt.Sprintf(""unknown attr type: %x"", a))) } }");
   ("tags", "func tags(attrs map[string]*sysl.Attribute) []string { var tags []string for attrName, attr := range attrs { if attrName == tagAttr { if _, ok := attr.GetAttribute().(*sysl.Attribute_A); !ok { panic(fmt.Errorf(fmt.Sprintf(""patterns attr not an array: %x"", attr))) } for _, elt := range attr.GetA().Elt { if _, ok := elt.GetAttribute().(*sysl.Attribute_S); !ok { panic(fmt.Errorf(fmt.Sprintf(""pattern value not a string: %x"", elt))) } tags = append(tags, elt.GetS()) } } } return tags }");
   ("annos", "func annos(attrs map[string]*sysl.Attribute) map[string]interface{} { annos := map[string]interface{}{} for name, attr := range attrs { if name == tagAttr { continue } annos[name] = attrToValue(attr) } return annos }");
-  ("parseFieldType", "func parseFieldType(appName []string, t *sysl.Type) interface{} { switch t := t.Type.(type) { case *sysl.Type_Primitive_: return TypePrimitive{Primitive: t.Primitive.String()} case *sysl.Type_Tuple_: return TypeTuple{Tuple: t.Tuple} case *sysl.Type_TypeRef: ref := t.TypeRef if ref.Ref.Appname != nil { return TypeRef{AppName: ref.Ref.Appname.Part, TypePath: ref.Ref.Path} } else if ref.Context != nil { return TypeRef{AppName: ref.Context.Appname.Part, TypePath: ref.Ref.Path} } return TypeRef{AppName: appName, TypePath: ref.Ref.Path} case *sysl.Type_Set: ft := parseFieldType(appName, t.Set) return TypeSet{Set: ft} case *sysl.Type_Sequence: ft := parseFieldType(appName, t.Sequence) return TypeSequence{Sequence: ft} case *sysl.Type_NoType_: return nil case *sysl.Type_List_: return parseFieldType(appName, t.List.Type) default: return nil } }")].
+  ("parseFieldType", "func parseFieldType(appName []string, t *sysl.Type) interface{} { if t == nil { return nil } switch t := t.Type.(type) { case *sysl.Type_Primitive_: return TypePrimitive{Primitive: t.Primitive.String()} case *sysl.Type_Tuple_: return TypeTuple{} case *sysl.Type_TypeRef: ref := t.TypeRef if ref.Ref.Appname != nil { return TypeRef{AppName: ref.Ref.Appname.Part, TypePath: ref.Ref.Path} } else if ref.Context != nil { return TypeRef{AppName: ref.Context.Appname.Part, TypePath: ref.Ref.Path} } return TypeRef{AppName: appName, TypePath: ref.Ref.Path} case *sysl.Type_Set: ft := parseFieldType(appName, t.Set) return TypeSet{Set: ft} case *sysl.Type_Sequence: ft := parseFieldType(appName, t.Sequence) return TypeSequence{Sequence: ft} case *sysl.Type_NoType_: return nil case *sysl.Type_List_: return parseFieldType(appName, t.List.Type) default: return nil } }")].
 Lemma payload_rules_as_modelled : payload_rules = pinned_payload_rules.
 Proof. reflexivity. Qed.
 Lemma payload_tx_as_modelled : payload_tx = pinned_payload_tx.
@@ -64,6 +67,22 @@ Proof. reflexivity. Qed.
 Lemma payload_status_default_ok : payload_status_default = "ok".
 Proof. reflexivity. Qed.
 Lemma relmod_functions_as_modelled : relmod_fn_text = pinned_fn_text.
+Proof. reflexivity. Qed.
+
+(* normalizeType (which kinds of type get a Table / Alias / Enum row and fields, which get a Type row only),
+   normalizeField (the constraint fold: Length when present, Precision and Scale of every constraint in turn; Range,
+   BitWidth, Resolution never read), normalizeView (RetType only) and normalizeParam as Model.v / KindProps.v
+   transliterate them; BuildTransformInput / buildModel (pkg/arrai/transform/utils.go): the `rel` member of every model
+   handed to a transform script is *relmod.Normalize(module) and a refusal of Normalize is the refusal of the command *)
+Definition pinned_normalize_fn_text : list (string * string) := [("normalizeType", "func normalizeType(s *Schema, app *sysl.Application, typ *sysl.Type, typeName string) { s.Type = append(s.Type, Type{ AppName: app.Name.Part, TypeName: typeName, TypeDocstring: typ.Docstring, TypeOpt: typ.Opt, }) var fields map[string]*sysl.Type switch tv := typ.Type.(type) { case *sysl.Type_Tuple_: fields = tv.Tuple.AttrDefs case *sysl.Type_Relation_: table := Table{ AppName: app.Name.Part, TypeName: typeName, } if typ.GetRelation().PrimaryKey != nil { table.Pk = typ.GetRelation().PrimaryKey.AttrName } s.Table = append(s.Table, table) fields = tv.Relation.AttrDefs case *sysl.Type_Primitive_, *sysl.Type_Sequence, *sysl.Type_Set, *sysl.Type_TypeRef: s.Alias = append(s.Alias, Alias{ AppName: app.Name.Part, TypeName: typeName, AliasType: parseFieldType(app.Name.Part, typ), }) case *sysl.Type_Enum_: e := Enum{ AppName: app.Name.Part, TypeName: typeName, EnumItems: typ.GetEnum().Items, } s.Enum = append(s.Enum, e) } for _, fieldName := range sortedKeys(fields) { field := fields[fieldName] normalizeField(s, app, typeName, field, fieldName) } normalizeTypeMeta(s, app, typ, typeName) }");
+  ("normalizeField", "func normalizeField(s *Schema, app *sysl.Application, typeName string, field *sysl.Type, fieldName string) { fc := FieldConstraint{} if field.Constraint != nil { for _, c := range field.Constraint { if c.Length != nil { fc.Length = FieldConstraintLength{ Min: c.Length.Min, Max: c.Length.Max, } } fc.Precision = c.Precision fc.Scale = c.Scale } } s.Field = append(s.Field, Field{ AppName: app.Name.Part, TypeName: typeName, FieldName: fieldName, FieldOpt: field.Opt, FieldType: parseFieldType(app.Name.Part, field), FieldConstraint: fc, }) normalizeFieldMeta(s, app, typeName, field, fieldName) }");
+  ("normalizeView", "func normalizeView(s *Schema, app *sysl.Application, view *sysl.View, viewName string) { s.View = append(s.View, View{ AppName: app.Name.Part, ViewName: viewName, ViewType: parseFieldType(app.Name.Part, view.RetType), }) normalizeViewMeta(s, app, view, viewName) }");
+  ("normalizeParam", "func normalizeParam( s *Schema, app *sysl.Application, ep *sysl.Endpoint, paramName string, paramType *sysl.Type, paramIndex int, paramLoc string, ) { if paramLoc == """" { paramLoc = ""method"" if paramType != nil { tags := tags(paramType.Attrs) if len(tags) > 0 { paramLoc = tags[0] } } } param := Param{ AppName: app.Name.Part, EpName: ep.Name, ParamName: paramName, ParamLoc: paramLoc, ParamIndex: paramIndex, } if paramType == nil { param.ParamOpt = false param.ParamType = TypePrimitive{Primitive: ""any""} } else { param.ParamType = parseFieldType(app.Name.Part, paramType) param.ParamOpt = paramType.Opt normalizeParamMeta(s, app, ep, paramName, paramType, paramLoc, paramIndex) } s.Param = append(s.Param, param) }")].
+Definition pinned_transform_fn_text : list (string * string) := [("BuildTransformInput", "func BuildTransformInput(modules []*sysl.Module, modulePaths []string) (rel.Tuple, error) { models := make([]syslModel, 0, len(modules)) for i, module := range modules { modPath := ""stdin"" if len(modulePaths) > i { modPath = modulePaths[i] } mod, err := buildModel(module, modPath) if err != nil { return nil, err } models = append(models, mod) } input, err := rel.NewTupleFromMap(map[string]interface{}{""models"": models}) if err != nil { return nil, err } return input, nil }");
+  ("buildModel", "func buildModel(module *sysl.Module, path string) (syslModel, error) { docMod, err := arrai.SyslModuleToValue(module) if err != nil { return syslModel{}, err } relMod, err := relmod.Normalize(context.Background(), module) if err != nil { return syslModel{}, err } return syslModel{path: path, doc: docMod, rel: *relMod}, nil }")].
+Lemma type_field_view_functions_as_modelled : normalize_fn_text = pinned_normalize_fn_text.
+Proof. reflexivity. Qed.
+Lemma transform_input_as_modelled : transform_fn_text = pinned_transform_fn_text.
 Proof. reflexivity. Qed.
 
 (* every primitive the grammar lists is read as that primitive: at the level of the PRIMITIVE rule for every rest of
@@ -93,7 +112,17 @@ Proof.
 Qed.
 
 Theorem current_never_crashes m : normalize child_index_mode alt_index_mode payload_grammar m <> Crashed.
-Proof. apply normalize_never_crashes. rewrite (proj2 (proj2 payload_grammar_shape)). discriminate. Qed.
+Proof. apply normalize_never_crashes; [rewrite (proj2 (proj2 payload_grammar_shape)); discriminate|exact nil_type_is_guarded]. Qed.
+
+(* for the current source the second disjunct of refused_iff is empty: only a payload the reader does not accept refuses *)
+Theorem current_refused_iff m :
+  (normalize child_index_mode alt_index_mode payload_grammar m = Refused \/
+   normalize child_index_mode alt_index_mode payload_grammar m = Crashed) <->
+  exists ap e s, In ap m /\ In e (ap_eps ap) /\ ep_visits_stmts e = true /\ In s (e_stmts e) /\ reaches_bad payload_grammar s.
+Proof.
+  rewrite refused_iff. split; [|intros H; left; exact H].
+  intros [H|(ap & v & _ & _ & _ & Hn)]; [exact H|]. exfalso. apply Hn, nil_type_is_guarded.
+Qed.
 
 Theorem current_payload_canonical s py : parse_payload payload_grammar s = POk py -> pay_canonical py.
 Proof. apply parse_ok_canonical. Qed.
@@ -137,10 +166,28 @@ Theorem current_one_stmt_row_per_visible_statement g a sa ep stmts :
   rel_count RStmt (map (item_row g a sa ep) (ep_items child_index_mode alt_index_mode stmts)) = list_sum (map visible_stmts stmts).
 Proof. rewrite current_ep_items. apply one_stmt_row_per_visible_statement. Qed.
 
+(* the relations are sets for a transform script: the Stmt relation keeps one element per visible statement *)
+Theorem current_stmt_set_exact g a sa ep stmts :
+  let rows := rel_rows RStmt (map (item_row g a sa ep) (ep_items child_index_mode alt_index_mode stmts)) in
+  NoDup rows /\ List.length rows = list_sum (map visible_stmts stmts).
+Proof. rewrite current_ep_items. apply stmt_set_has_one_element_per_visible_statement. Qed.
+
 (* the round trip for the CURRENT source *)
 Theorem current_rows_lossless m rs :
   normalize child_index_mode alt_index_mode payload_grammar m = Rows rs -> rebuild rs = project payload_grammar m.
 Proof. rewrite child_paths_are_fresh, alt_paths_are_fresh. apply rows_lossless. Qed.
+
+(* what `erase` removes (KindProps.v) is outside the projection: the rows, hence the projection, of a module and of its
+   canonical form are the same *)
+Theorem current_rows_blind_to_erasure m :
+  normalize child_index_mode alt_index_mode payload_grammar (erase m) = normalize child_index_mode alt_index_mode payload_grammar m.
+Proof. apply rows_blind_to_erasure. Qed.
+Theorem erase_keeps_projection m rs :
+  normalize child_index_mode alt_index_mode payload_grammar m = Rows rs -> project payload_grammar (erase m) = project payload_grammar m.
+Proof.
+  intros H. rewrite <- (current_rows_lossless m rs H). symmetry. apply current_rows_lossless.
+  rewrite current_rows_blind_to_erasure. exact H.
+Qed.
 
 Theorem current_rows_determine_projection m1 m2 rs :
   normalize child_index_mode alt_index_mode payload_grammar m1 = Rows rs ->
